@@ -261,6 +261,11 @@ def message_fingerprint(lib, names):
             row.append(norm(lib.call(setattr, e, 'xml_bogus_child_', None)))
             row.append(norm(lib.call(setattr, e, 'value_', ('wrong', 'kind'))))
             row.append(norm(lib.call(e.to_string)))
+            t = lib.xsd_type_name(cls)
+            if t in ref.ALL:
+                # a refused value for the first declared attributes (union types collect one reason per member type)
+                for an, at, req in [a for a in ref.attr_table(t) if a[1] is not None and a[0] != 'name'][:4]:
+                    row.append(norm(lib.call(setattr, e, an.split(':')[-1].replace('-', '_'), '@@refused@@')))
         out[cn] = row
     return out
 
@@ -295,8 +300,9 @@ def run_messages(shard, tier, seed):
     for cn in names:
         if now[cn] != pristine.get(cn):
             idx = [i for i, (a, b) in enumerate(zip(now[cn], pristine.get(cn, []))) if a != b]
-            probe = ['undeclared-keyword', 'to_string', 'undeclared-dot-write', 'undeclared-dot-read', 'undeclared-shortcut',
-                     'wrong-kind-value', 'to_string-again'][idx[0]] if idx else 'row'
+            probes = ['undeclared-keyword', 'to_string', 'undeclared-dot-write', 'undeclared-dot-read', 'undeclared-shortcut',
+                      'wrong-kind-value', 'to_string-again']
+            probe = (probes[idx[0]] if idx[0] < len(probes) else 'refused-attribute-value') if idx else 'row'
             a, b = (now[cn][idx[0]], pristine[cn][idx[0]]) if idx else ('', '')
             what = 'exception-class' if a.split(':')[0] != b.split(':')[0] else 'message'
             viol.append({'sig': {'kind': 'fresh-element-answers-differently-than-in-a-pristine-interpreter', 'probe': probe,
